@@ -76,6 +76,7 @@ type pathBehaviour struct {
 	SevenBit   string          // "", servfail, mangle  (names with bytes >= 0x80)
 	Answered   map[uint16]bool // nil = all record types answered
 	SizeLimit  int             // 0 = none; answers whose packed size exceeds it are dropped
+	Truncate   bool            // with SizeLimit: oversize answers lose trailing records and get the TC bit instead of being dropped
 	StripEdns0 bool
 	rnd        uint64
 }
@@ -265,6 +266,21 @@ func (c *simClient) SendAndReceive(m *mdns.Msg, timeout *time.Duration) (*mdns.M
 		return nil, 0, realTimeoutError()
 	}
 	if c.path != nil && c.path.SizeLimit > 0 && size > c.path.SizeLimit {
+		if !c.path.Truncate {
+			return nil, 0, realTimeoutError()
+		}
+		// the standard way of limiting answer size: leave trailing records out until the message fits, set TC
+		cp := *resp // shallow copy: the records themselves are not modified
+		cut := &cp
+		cut.Answer = append([]mdns.RR(nil), resp.Answer...)
+		cut.Truncated = true
+		for len(cut.Answer) > 0 {
+			cut.Answer = cut.Answer[:len(cut.Answer)-1]
+			o2, sz, err := wire(cut)
+			if err == nil && sz <= c.path.SizeLimit {
+				return o2, time.Millisecond, nil
+			}
+		}
 		return nil, 0, realTimeoutError()
 	}
 	return out, time.Millisecond, nil
